@@ -836,18 +836,61 @@ func c13UntrustedNames(c *Ctx) {
 		}
 		sf := p.SSAFunc(fr.Obj)
 		okAll, seen := true, 0
+		// copy helpers: functions (or literals) that hand one of their own parameters to CopyReader as the path; a call
+		// of one is a write whose destination is the matching argument
+		copyHelper := map[*ssa.Function]int{}
+		for _, af := range archiveReaderFuncs(sf) {
+			for _, call := range callsIn(af) {
+				if callee := staticCalleeObj(call.Call); callee != nil && calleeIs(callee, "private/pkg/storage", "CopyReader") {
+					if par, ok := stripConv(call.Call.Args[len(call.Call.Args)-1]).(*ssa.Parameter); ok && par.Parent() == af {
+						for i, fp := range af.Params {
+							if fp == par {
+								copyHelper[af] = i
+							}
+						}
+					}
+				}
+			}
+		}
+		helperOf := func(cc *ssa.CallCommon) (*ssa.Function, bool) {
+			if sc := cc.StaticCallee(); sc != nil {
+				_, ok := copyHelper[sc]
+				return sc, ok
+			}
+			var found *ssa.Function
+			if !cc.IsInvoke() {
+				sliceBack(cc.Value, func(x ssa.Value) bool {
+					if mc, ok := x.(*ssa.MakeClosure); ok {
+						if fn, _ := mc.Fn.(*ssa.Function); fn != nil {
+							if _, ok := copyHelper[fn]; ok {
+								found = fn
+							}
+						}
+					}
+					return true
+				})
+			}
+			return found, found != nil
+		}
 		for _, af := range archiveReaderFuncs(sf) {
 			for _, call := range callsIn(af) {
 				callee := staticCalleeObj(call.Call)
-				if callee == nil {
+				h, isHelperCall := helperOf(call.Call)
+				if callee == nil && !isHelperCall {
 					continue
 				}
-				if calleeIs(callee, "private/pkg/storage", "CopyReader") || (callee.Pkg() != nil && callee.Pkg().Path() == fr.Pkg.PkgPath && callee.Name() == "copyZipFile") {
-					if af.Name() == "copyZipFile" {
+				if isHelperCall || calleeIs(callee, "private/pkg/storage", "CopyReader") {
+					pathArg := call.Call.Args[len(call.Call.Args)-1]
+					if isHelperCall {
+						idx := copyHelper[h]
+						if idx >= len(call.Call.Args) {
+							continue
+						}
+						pathArg = call.Call.Args[idx]
+					} else if _, isHelperBody := copyHelper[af]; isHelperBody {
 						continue // the copy helper itself: its path parameter is what the reader handed it
 					}
 					seen++
-					pathArg := call.Call.Args[len(call.Call.Args)-1]
 					from := dependsOnCall(pathArg, func(cc *ssa.CallCommon) bool {
 						cf := staticCalleeObj(cc)
 						return cf != nil && cf.Name() == "unmapArchivePath"
